@@ -117,6 +117,14 @@ def classify(tr, line, clause):
                 return "F8:reader:generic-rdata-of-known-type-with-embedded-name"
             if clause == "ZoneAfterLine" and any(n[:1] == ["ABS!"] for r in e.get("zone", []) for n in r[3][0]):
                 return "F8:reader:generic-rdata-of-known-type-with-embedded-name"
+    if op == "line" and e.get("ln", {}).get("k") == "gen" and clause in ("ZoneAfterLine", "Outcome"):
+        g = e["ln"]
+        sides = [g["lhs"]["items"]] + ([g["rhs"]["items"]] if g["rhs"].get("kind") == "name" else [])
+        mods = [[it for it in side if it[0] == "mod"] for side in sides]
+        if any(it[3] in ("n", "N") for side in mods for it in side):
+            return "F48:$GENERATE-nibble-field-cut-to-width"
+        if any(len(side) > 1 for side in mods) or (g["rhs"].get("kind") == "addr" and False):
+            return "F49:$GENERATE-only-last-$-of-a-side-substituted"
     if op in ("line", "spelled") and clause in ("ZoneAfterLine", "Outcome", "OriginLearned", "SpellingAgrees", "SpellingLoads",
                                                 "SpellingOrigin", "SpellingModel"):
         upto = [x.get("ln", {}) for x in ev[:line] if x.get("op") == "line"]
@@ -222,6 +230,9 @@ def run(ctx):
             "s3": lambda: ctx.generate("Gen_ZoneFile", gen_cfg(ctx, "s3.cfg", zones="GZCur", buildmax=5, maxextra=3, maxdev=9,
                                                               profiles="PSim", og=tset([True, False])),
                                        simulate="num=%d" % n, depth=20, seed=ctx.seed + 1, deadlock=False, limit=n),
+            # S4: the zones the nibble / multi-$ $GENERATE lines expand to: $GENERATE versus its expansion
+            "s4": lambda: ctx.generate("Gen_ZoneFile", gen_cfg(ctx, "s4.cfg", zones="GZGen", maxextra=0 if quick else 1, maxdev=1,
+                                                              profiles="PInherit")),
             "r1": lambda: ctx.generate("Gen_ZoneFile", gen_cfg(ctx, "r1.cfg", kinds=tset(["read"]), lines="RLinesMid" if quick else "RLinesFull", depth=2)),
             "r2": lambda: ctx.generate("Gen_ZoneFile", gen_cfg(ctx, "r2.cfg", kinds=tset(["read"]), lines="RLinesSmall" if quick else "RLinesTiny",
                                                               depth=3 if quick else 4)),
@@ -247,7 +258,7 @@ def run(ctx):
         with cf.ThreadPoolExecutor(max_workers=len(tasks)) as ex:
             futs = {k: ex.submit(f) for k, f in tasks.items()}
             res = {k: f.result() for k, f in futs.items()}
-        spell = res["s1"] + res["s2"] + res["s3"]
+        spell = res["s1"] + res["s2"] + res["s3"] + res["s4"]
         read = res["r1"] + res["r2"] + res["r3"] + res["r4"]
         write = res["w1"] + res["w2"] + res["w3"] + res["w4"]
         write = [b for b in write if b["kind"] == "write"]
@@ -256,6 +267,9 @@ def run(ctx):
         alll = [l for b in spell for l in b["lines"]]
         witnesses = {
             "$GENERATE replaces its expansion": any(l["k"] == "gen" for l in alll),
+            "$GENERATE nibble bases and several $ per side": any(
+                l["k"] == "gen" and any(it[0] == "mod" and it[3] in ("n", "N") for it in l["lhs"]["items"]) for l in alll) and any(
+                l["k"] == "gen" and sum(1 for it in l["lhs"]["items"] if it[0] == "mod") > 1 for l in alll),
             "inherited owner and TTL": any(l["k"] == "rr" and l["owner"] == ["blank"] and l["ttl"] == ["none"] for l in alll),
             "$ORIGIN-relative names": any(l["k"] == "rr" and any(n[0] in ("rel", "at") for n in l["names"]) for l in alll),
             "class before TTL": any(l["k"] == "rr" and l["ord"] == "ct" for l in alll),
